@@ -160,7 +160,7 @@ func (e *cbEnv) extended() {
 	steps := []func(){
 		x.failingStorable, x.failingCallbacks, x.failingStoredValue,
 		x.failingStorageCalls, x.failingStorageUnderIteration, x.danglingNext,
-		x.refusedOpens, x.rawDigester, x.failingProviders,
+		x.refusedOpens, x.rawDigester, x.rawDigesterIterations, x.failingProviders,
 	}
 	for _, f := range steps {
 		if x.stop() {
@@ -197,6 +197,7 @@ var callbackRequiredExt = []string{
 	"map.IterateReadOnlyKeys/stored-value", "map.IterateReadOnlyValues/stored-value", "map.IterateReadOnlyLoadedValues/stored-value",
 	"map.Iterate/stored-value", "map.IterateKeys/stored-value", "map.IterateValues/stored-value",
 	"map.Iterator/stored-value-of-first-key",
+	"SlabIDStorable.StoredValue/storage-read", "array.CopyNonRefSimple/element-copy", "map.CopyNonRefSimple/element-copy",
 }
 
 // ---------------------------------------------------------------------------------------------
@@ -557,6 +558,26 @@ func (x *cbx) failingStoredValue() {
 		one("StorableSlab.StoredValue/stored-value", 1, func() error { _, err := slab.StoredValue(s.rec); return err })
 	}
 
+	// the reference to such a slab, asked directly, over a storage whose read fails
+	for i, id := range ids {
+		if i >= 3 || x.stop() {
+			break
+		}
+		what := "SlabIDStorable.StoredValue/storage-read"
+		before := s.snapshot()
+		s.rec.Reset()
+		s.rec.ResetFail()
+		s.rec.FailRetrieveAt = 1
+		err := x.guard(what, func() error { _, err := atree.SlabIDStorable(id).StoredValue(s.rec); return err })
+		s.rec.ResetFail()
+		x.external(what, err)
+		x.unchanged(what, s, before)
+	}
+	x.failingElementCopy()
+	if x.stop() {
+		return
+	}
+
 	// maps
 	for rep := 0; rep < 4; rep++ {
 		k := hx.TV{Size: 9, Pay: uint64(2 * (1 + rng.Intn(nMap)))}
@@ -593,5 +614,58 @@ func (x *cbx) failingStoredValue() {
 			_, err := m.Set(hx.CompareKey, hx.HashInput, k, hx.TV{Size: 12, Pay: 5})
 			return err
 		})
+	}
+}
+
+// failingElementCopy: CopyNonRefSimple of a single-slab array / map whose element storables fail in their
+// own CopyNonRefSimple().  The library reports Fatal(CopyError(External(cause))): the External error and
+// the cause must be in the chain (the outermost category is the copy's own; counted as an observation).
+func (x *cbx) failingElementCopy() {
+	s := newXStore()
+	cs := &hx.FailSwitch{}
+	fv := func(size uint32, pay uint64) hx.FV { return hx.FV{TV: hx.TV{Size: size, Pay: pay}, OnCopy: cs} }
+	a, err := atree.NewArray(s.rec, hx.MkAddr(1), hx.TI(4))
+	for i := 0; i < 4 && err == nil; i++ {
+		err = a.Append(fv(10, uint64(i)))
+	}
+	m, err2 := atree.NewMap(s.rec, hx.MkAddr(2), plainBuilder(), hx.TI(3))
+	for k := uint64(1); k <= 3 && err2 == nil; k++ {
+		_, err2 = m.Set(hx.CompareKey, hx.HashInput, fv(9, k), fv(10, k))
+	}
+	if err != nil || err2 != nil {
+		x.st.HarnessErr = fmt.Sprintf("copy setup: %v %v", err, err2)
+		return
+	}
+	for _, c := range []string{"array", "map"} {
+		for at := 1; at <= 6 && !x.stop(); at++ {
+			what := c + ".CopyNonRefSimple/element-copy"
+			cs.Arm(at)
+			err := x.guard(what, func() error {
+				if c == "array" {
+					_, err := a.CopyNonRefSimple(hx.MkAddr(5))
+					return err
+				}
+				_, err := m.CopyNonRefSimple(hx.MkAddr(5), plainBuilder())
+				return err
+			})
+			fired := cs.Fired
+			cs.Arm(0)
+			if !fired || err == errPanicked {
+				continue
+			}
+			x.st.Ops++
+			x.st.Hit(what)
+			var ext *atree.ExternalError
+			switch {
+			case err == nil:
+				x.viol(what + ": an element's CopyNonRefSimple() failed but the copy succeeded")
+			case !errors.As(err, &ext):
+				x.viol(fmt.Sprintf("%s: failure of a caller-supplied component reported as %s without an External error in the chain", what, hx.ErrKind(err)))
+			case !errors.Is(err, hx.ErrInjected):
+				x.viol(fmt.Sprintf("%s: the cause is not preserved in the error chain: %v", what, err))
+			case hx.ErrCategory(err) != "External":
+				x.st.Hit("observation:element-copy-failure-reported-as-" + hx.ErrCategory(err) + "-around-External")
+			}
+		}
 	}
 }
